@@ -138,6 +138,9 @@ func init() {
 		if p == nil {
 			return ""
 		}
+		if subtreeSymbolic(p) {
+			return symRender(p)
+		}
 		var b bytes.Buffer
 		html.Render(&b, newNodeMap().real(p))
 		return b.String()
@@ -146,6 +149,13 @@ func init() {
 		p := a[0].(*value)
 		if p == nil {
 			return ""
+		}
+		if subtreeSymbolic(p) {
+			var out []value
+			for c := np((*p).(structure)[1]); c != nil; c = np((*c).(structure)[4]) {
+				out = append(out, bytesOf(symRender(c))...)
+			}
+			return intrinsics["strings.TrimSpace"](fr, []value{mkStr(out)})
 		}
 		var b bytes.Buffer
 		n := newNodeMap().real(p)
